@@ -439,6 +439,92 @@ func (c *Ctx) modSet(fn *ssa.Function) map[*types.Var]bool {
 	return out
 }
 
+// predModSet: like modSet, but without (a) initialisation stores (the base object was allocated by the storing
+// function) and (b) stores of a freshly allocated object into an open slot: neither can turn a wait predicate true —
+// a fresh object is not yet referenced by any predicate, and the predicates that read a slot only inspect the parts
+// of the object in it, which a fresh object does not have (checked: the function does not store to its `parts`).
+func (c *Ctx) predModSet(fn *ssa.Function) map[*types.Var]bool {
+	var memo map[*ssa.Function]map[*types.Var]bool
+	if v, ok := c.cache["predmodset"]; ok {
+		memo = v.(map[*ssa.Function]map[*types.Var]bool)
+	} else {
+		memo = map[*ssa.Function]map[*types.Var]bool{}
+		c.cache["predmodset"] = memo
+	}
+	if m, ok := memo[fn]; ok {
+		return m
+	}
+	slots, _ := c.slotFields()
+	out := map[*types.Var]bool{}
+	seen := map[*ssa.Function]bool{}
+	var walk func(f *ssa.Function)
+	walk = func(f *ssa.Function) {
+		if f == nil || seen[f] || !InLib(f) || f.Blocks == nil {
+			return
+		}
+		seen[f] = true
+		allInstrs(f, func(in ssa.Instruction) {
+			switch x := in.(type) {
+			case *ssa.Store:
+				if fl, base := fieldOfAddr(x.Addr); fl != nil {
+					if freshObject(base) {
+						return
+					}
+					if slots[fl] && freshEmptyObject(c, x.Val) {
+						return
+					}
+					out[fl] = true
+				}
+				if ia, ok := x.Addr.(*ssa.IndexAddr); ok {
+					if fl, _ := loadedField(ia.X); fl != nil {
+						out[fl] = true
+					}
+				}
+			case *ssa.MapUpdate:
+				if fl, _ := loadedField(x.Map); fl != nil {
+					out[fl] = true
+				}
+			}
+			if ci, ok := in.(ssa.CallInstruction); ok {
+				if b, isB := ci.Common().Value.(*ssa.Builtin); isB && b.Name() == "delete" {
+					if fl, _ := loadedField(ci.Common().Args[0]); fl != nil {
+						out[fl] = true
+					}
+				}
+				for _, g := range c.calleesOf(ci) {
+					walk(g)
+				}
+			}
+		})
+	}
+	walk(fn)
+	memo[fn] = out
+	return out
+}
+
+// freshEmptyObject: v is an object allocated in this function whose `parts` list is not assigned here.
+func freshEmptyObject(c *Ctx, v ssa.Value) bool {
+	al, ok := stripConv(v).(*ssa.Alloc)
+	if !ok {
+		if k, isC := v.(*ssa.Const); isC && k.IsNil() {
+			return false // emptying a slot is a real change
+		}
+		return false
+	}
+	for _, ref := range *al.Referrers() {
+		if fa, ok := ref.(*ssa.FieldAddr); ok {
+			if st := derefStruct(al.Type()); st != nil && st.Field(fa.Field).Name() == "parts" {
+				for _, rr := range *fa.Referrers() {
+					if _, isSt := rr.(*ssa.Store); isSt {
+						return false
+					}
+				}
+			}
+		}
+	}
+	return true
+}
+
 func ruleL3(c *Ctx) *RuleResult {
 	r := &RuleResult{Floor: 3, FloorWhat: "writer critical sections that change a wait predicate"}
 	li := c.locks()
@@ -533,15 +619,18 @@ func ruleL3(c *Ctx) *RuleResult {
 				}
 				return false
 			})
+			slotsL3, _ := c.slotFields()
 			for x := range reachI {
 				if st, ok := x.(*ssa.Store); ok {
 					if f, _ := fieldOfAddr(st.Addr); f != nil && pred[cls][f] {
-						mods[f] = true
+						if !(slotsL3[f] && freshEmptyObject(c, st.Val)) {
+							mods[f] = true
+						}
 					}
 				}
 				if ci, ok := x.(ssa.CallInstruction); ok && classifySync(ci.Common()) == opNone {
 					for _, g := range c.calleesOf(ci) {
-						for f := range c.modSet(g) {
+						for f := range c.predModSet(g) {
 							if pred[cls][f] {
 								mods[f] = true
 							}
